@@ -493,7 +493,11 @@ class WrapperMixin(object):
         lines = str(text).expandtabs().split("\n")
         if lines[-1] == "" and (len(lines) > 1 or not tag):
             lines.pop()  # remove trailing newline
+        # The text must not end a block comment.
+        closer = self.doxygen_end.strip()
         for line in lines:
+            if closer == "*/":
+                line = line.replace("*/", "* /")
             # "@": the text is the user's, a + at its end is not a directive.
             output.append("@" + self.doxygen_cont + " " + tag + line)
             tag = ""
